@@ -101,7 +101,11 @@ EXERCISED = (
     "beginning with U+FEFF or containing the model marker; buffers of 4097 and 8193 bytes; "
     "held messages sharing a packet number; error texts ending in blanks; a connection lost "
     "in mid-frame; a slow connect followed by a silent console; lifetimes that decrease "
-    "from one held message to the next")
+    "from one held message to the next; version texts of 128..255 bytes; air-conditioners "
+    "listed out of ascending order; the AT4 silence poll in a second life; frames of 20000 "
+    "and 65535 bytes; arguments that are instances of subclasses of datetime.time / "
+    "timedelta; identical records twice in one control message; extended frames from "
+    "addresses other than 0x90")
 
 T = """You are helping to evaluate a verification harness by producing a *subtle, realistic regression* in a Python library.
 
